@@ -25,28 +25,30 @@ not threads of the model.
 **The error goroutine.**  `compactionError` is modelled case by case (`Model/CompErr.lean`): `Cfg.m` has one flag
 per `select` case and `switch` case of the function, `codeCfg.m` takes them from `Gen/Consts.lean`, which
 `tools/extract` regenerates from the Go AST on every run, and `code_comperr_machine` (a `decide`) states that the
-source has every case the proofs rely on.  `SetReadOnly` is modelled as coded now: it takes the token and sets
-`compWriteLocking`, posts `ErrReadOnly` and sets `compReadOnly` (consulted by `tCompaction`), and on `closeC`
-takes a token out of `writeLockC` without blocking.  Compactions end with `nil`, a transient error (retry loop)
-or a corruption (`compactionExitTransact`).
+source has every case the proofs rely on.  `SetReadOnly` is modelled as coded now (since 832d000,
+`code_hands_over`): it takes the token, posts `ErrReadOnly` — `compactionError`, taking it, sets
+`compWriteLocking`: the token is handed over — and sets `compReadOnly` (consulted by `tCompaction`); if it gives
+up (`compPerErrC`, `closeC`) it takes its own token back.  Compactions end with `nil`, a transient error (retry
+loop) or a corruption (`compactionExitTransact`).
 
 **What is proved about the current code** (`codeCfg`; `code_all_fixed`: it is `Cfg.repaired`), for every run —
 `SetReadOnly` at any point, also during the retry loop of a failing compaction and concurrently with `Close`,
-storage failures and corruption errors anywhere: `code_all_progress`, `code_all_recovers_after_faults`,
-`code_all_close_returns`, `code_all_locks_have_owners` (every held lock has an owner that can move),
+storage failures and corruption errors anywhere: `code_all_released_on_return` (the exact accounting of the three
+locks, full strength), `code_all_progress`, `code_all_recovers_after_faults`, `code_all_close_returns`,
 `setReadOnly_takes_effect` (once `SetReadOnly` returned nil every write-side call fails at its first `select`
 with `ErrReadOnly`, nothing blocks, `Close` returns), `persistent_error_fails_fast`.  `hang_without_…` /
 `write_succeeds_without_…`: for each `select` case of the machine whose removal breaks one of these, the run
 that hangs (a `decide`d deadlock), in particular the `err == ErrReadOnly` case of `haserr`.
 
-**What is not**: the *exact* accounting of the write-lock token (`ReleasedOnReturn`).  It holds while the DB is
-open, in runs without corruption errors and in runs without `SetReadOnly` (`released_on_return_partial`), but not
-in general (`write_lock_lost`, `released_on_return_full_refuted`): both take-backs of `compWriteLocking` are
-blind.  If a compaction reports a corruption while a `SetReadOnly` is between its two `select`s, a following
-`Close` lets `compactionError` (in `hasperr`, reading the `compWriteLocking` that `SetReadOnly` set) take
-`SetReadOnly`'s token, `Close` acquires the lock, and `SetReadOnly`'s `closeC` arm takes *`Close`'s* token out:
-`Close` goes on tearing the DB down without the write lock, and a writer that was waiting in its `select` can
-acquire it.  Nothing blocks in this run (the liveness theorems cover it); what is lost is mutual exclusion.
+**The defect 832d000 repaired** (`Cfg.before832`, `write_lock_lost`, `released_on_return_fails_before_832d000`):
+`SetReadOnly` used to set `compWriteLocking` itself, and both take-backs of that token were blind.  If a
+compaction reported a corruption while a `SetReadOnly` was between its two `select`s, a following `Close` let
+`compactionError` take `SetReadOnly`'s token, `Close` acquired the lock, and `SetReadOnly`'s `closeC` arm took
+*`Close`'s* token out: `Close` went on tearing the DB down without the write lock, and a writer waiting in its
+`select` could acquire it.  For that configuration everything but the exact accounting holds
+(`before832_covered`; the accounting: `released_on_return_partial`).
+
+**Still open (model level)**: `readonly_write_slips_through_on_close`.
 
 The leak theorems (`leak_commit`, `leak_opentx`, `leak_largebatch`, `leak_setreadonly`, stated for `Cfg.asIs`)
 show what each of the four repairs prevents: an explicit run and an invariant proving that the resource is
@@ -75,11 +77,20 @@ theorem code_three_fixed :
 `CompErr.MCfg.asCoded`, and nothing else (regenerated facts `Gen.ce…`) -/
 theorem code_comperr_machine : codeCfg.m = CompErr.MCfg.asCoded := by decide
 
+/-- **the tie of the hand-over**: `SetReadOnly` does not set `compWriteLocking` and gives its own token back on
+its `compPerErrC` arm; `compactionError` sets `compWriteLocking` when it takes `ErrReadOnly`, in `noerr` and in
+`haserr` (regenerated facts; the shape since 832d000) -/
+theorem code_hands_over : codeCfg.HandsOver := by decide
+
 theorem code_covered (s : St) (hr : ReachableNoSR codeCfg s) : Covered codeCfg s :=
-  ⟨code_three_fixed, code_comperr_machine, Or.inr hr⟩
+  ⟨code_three_fixed, code_comperr_machine, Or.inl code_hands_over, Or.inr hr⟩
 
 theorem repaired_covered (s : St) (hr : Reachable Cfg.repaired s) : Covered Cfg.repaired s :=
-  ⟨⟨rfl, rfl, rfl⟩, rfl, Or.inl ⟨rfl, Or.inl hr⟩⟩
+  ⟨⟨rfl, rfl, rfl⟩, rfl, Or.inl (by decide), Or.inl ⟨rfl, Or.inl hr⟩⟩
+
+/-- the source between the repair of D23 and 832d000 is covered too (everything but the exact accounting) -/
+theorem before832_covered (s : St) (hr : Reachable Cfg.before832 s) : Covered Cfg.before832 s :=
+  ⟨⟨rfl, rfl, rfl⟩, rfl, Or.inr (by decide), Or.inl ⟨rfl, Or.inl hr⟩⟩
 
 /-! ## the statements -/
 
@@ -119,14 +130,28 @@ def CloseReturns (cfg : Cfg) (s : St) : Prop :=
 
 /-! ## the covered configurations -/
 
-/-- **Every held resource has exactly its owners** — while the DB is open, and throughout runs without
-corruption errors or without `SetReadOnly`: the token is in `writeLockC` iff exactly one of — a thread between
-acquiring and releasing it, the open transaction, `compWriteLocking`, `Close` — holds it; likewise
-`compCommitLk` (a committing `Commit` or compaction) and `tr.lk`.  A thread that has returned (`ret`, `retE`)
-or not started (`idle`) is never an owner: whatever a call acquired is released when it returns, whatever its
-outcome — except the token of a successful `OpenTransaction`, which passes to the transaction (`trOpen`) and is
-released by `Commit`(ok) / `Discard` / `Close` (`St.setDone`), and the token `SetReadOnly` leaves to
-`compactionError` (`ehTok`), released on `Close`.  (`_partial`: see `released_on_return_full`.) -/
+/-- **Every held resource has exactly its owners**, in every state of every run (storage failures, corruption
+errors, `SetReadOnly` and `Close` anywhere) of a configuration with the four releases, the machine as coded and the
+hand-over of the token as coded since 832d000: the token is in `writeLockC` iff exactly one of — a thread
+between acquiring and releasing it, the open transaction, `compWriteLocking` (or the `SetReadOnly` that is about to
+hand it over), `Close` — holds it; likewise `compCommitLk` (a committing `Commit` or compaction) and `tr.lk`.  A
+thread that has returned (`ret`, `retE`) or not started (`idle`) is never an owner: whatever a call acquired is
+released when it returns, whatever its outcome — except the token of a successful `OpenTransaction`, which passes
+to the transaction (`trOpen`) and is released by `Commit`(ok) / `Discard` / `Close` (`St.setDone`), and the token
+a successful `SetReadOnly` hands to `compactionError` (`ehTok`), released on `Close`. -/
+theorem released_on_return (cfg : Cfg) (s : St) (hc : Covered cfg s) (hh : cfg.HandsOver)
+    (h4 : cfg.setReadOnlyReleasesOnClose = true) : ReleasedOnReturn s := by
+  have g := (covered_good cfg s hc).1.r
+  have hr : Reachable cfg s ∨ ReachableNC cfg s ∨ ReachableNoSR cfg s := by
+    rcases hc.2.2.2 with ⟨_, h | h⟩ | h
+    · exact Or.inl h
+    · exact Or.inr (Or.inl h)
+    · exact Or.inr (Or.inr h)
+  exact ⟨(exact_handsOver cfg hc.1 hc.2.1 hh h4 s hr).1, g.clkI, g.trlkI, fun _ => ⟨rfl, rfl, rfl⟩⟩
+
+/-- the same for the other covered configurations (the hand-over as coded before 832d000, or without the fourth
+release in runs without `SetReadOnly`): while the DB is open, and throughout runs without corruption errors or
+without `SetReadOnly`.  Not in general: `write_lock_lost`. -/
 theorem released_on_return_partial (cfg : Cfg) (s : St) (hc : Covered cfg s)
     (hx : s.closed = false ∨ (cfg.setReadOnlyReleasesOnClose = true ∧ ReachableNC cfg s) ∨ ReachableNoSR cfg s) :
     ReleasedOnReturn s := by
@@ -137,9 +162,6 @@ theorem released_on_return_partial (cfg : Cfg) (s : St) (hc : Covered cfg s)
     · exact (exact_noCorr cfg hc.1 hc.2.1 h4 s hx).1
     · exact exact_noSR cfg hc.1 hc.2.1 s hx
   exact ⟨ht, g.1.1.r.clkI, g.1.1.r.trlkI, fun _ => ⟨rfl, rfl, rfl⟩⟩
-
-/-- the full statement: the exact accounting in every covered state -/
-def released_on_return_full : Prop := ∀ (cfg : Cfg) (s : St), Covered cfg s → ReleasedOnReturn s
 
 /-- **Every held lock has an owner**, in every covered state: `compCommitLk` and `tr.lk` exactly, and a token in
 `writeLockC` belongs to a thread between acquiring and releasing it, to the open transaction, to
@@ -224,7 +246,7 @@ theorem close_returns (cfg : Cfg) (s : St) (hc : Covered cfg s) : CloseReturns c
 /-! ### the current source (`codeCfg`), runs without `SetReadOnly` -/
 
 theorem code_released_on_return (s : St) (hr : ReachableNoSR codeCfg s) : ReleasedOnReturn s :=
-  released_on_return_partial codeCfg s (code_covered s hr) (Or.inr (Or.inr hr))
+  released_on_return codeCfg s (code_covered s hr) code_hands_over (by decide)
 theorem code_progress (s : St) (hr : ReachableNoSR codeCfg s) : Progress codeCfg s :=
   progress codeCfg s (code_covered s hr)
 theorem code_recovers_after_faults (s : St) (hr : ReachableNoSR codeCfg s) : RecoversAfterFaults codeCfg s :=
@@ -234,9 +256,8 @@ theorem code_close_returns (s : St) (hr : ReachableNoSR codeCfg s) : CloseReturn
 
 /-! ### all four fixes (`Cfg.repaired`), every run -/
 
-theorem repaired_released_on_return_partial (s : St) (hr : Reachable Cfg.repaired s) (ho : s.closed = false) :
-    ReleasedOnReturn s :=
-  released_on_return_partial Cfg.repaired s (repaired_covered s hr) (Or.inl ho)
+theorem repaired_released_on_return (s : St) (hr : Reachable Cfg.repaired s) : ReleasedOnReturn s :=
+  released_on_return Cfg.repaired s (repaired_covered s hr) (by decide) rfl
 theorem repaired_progress (s : St) (hr : Reachable Cfg.repaired s) : Progress Cfg.repaired s :=
   progress Cfg.repaired s (repaired_covered s hr)
 theorem repaired_recovers_after_faults (s : St) (hr : Reachable Cfg.repaired s) : RecoversAfterFaults Cfg.repaired s :=
@@ -266,7 +287,7 @@ example : Steps Cfg.repaired (init 2) { ws := [.ret false, .idle] } := by
 /-- a `Close` racing with `SetReadOnly` completes -/
 example : Steps Cfg.repaired (init 2)
     { ws := [.ret false, .ret true], tok := true, closeTok := true, closed := true, eh := .exited,
-      cwl := true, mc := .exited, tc := .exited } := by
+      mc := .exited, tc := .exited } := by
   have h := Steps.refl (cfg := Cfg.repaired) (init 2)
   have h := h.step (Step.startSR _ 0 rfl rfl)
   have h := h.step (Step.selTok _ 0 .srSel .srSet rfl rfl rfl)
@@ -343,8 +364,8 @@ theorem leak_largebatch :
     | 1, hi => cases hi; rfl
     | n + 2, hi => simp [lgLeakSt] at hi
   · intro t ht hc
-    have h0 : TxOrphan lgLeakSt := Or.inr ⟨rfl, by decide, rfl, rfl, by decide, by decide⟩
-    rcases steps_inv_of_step TxOrphan (step_txOrphan Cfg.asIs) _ _ ht h0 with h | ⟨h1, h2, h3, h4, _, _⟩
+    have h0 : TxOrphan lgLeakSt := Or.inr ⟨rfl, by decide, rfl, rfl, by decide, by decide, by decide⟩
+    rcases steps_inv_of_step TxOrphan (step_txOrphan Cfg.asIs) _ _ ht h0 with h | ⟨h1, h2, h3, h4, _, _, _⟩
     · rw [hc] at h; cases h
     · exact ⟨h1, h2, h3, h4⟩
 
@@ -358,9 +379,9 @@ theorem leak_setreadonly_of (cfg : Cfg) (hm : cfg.m = CompErr.MCfg.asCoded)
     ∃ s, Reachable cfg s ∧ s.ws[0]? = some (.ret false) ∧ s.ws[1]? = some .clAcq ∧
       ∀ t, Steps cfg s t →
         t.tok = true ∧ tot tokW t.ws = 0 ∧ t.closeTok = false ∧ ∀ (i : Nat), t.ws[i]? ≠ some .clWait := by
-  refine ⟨srLeakSt, ⟨2, srLeakRun cfg hm hf⟩, rfl, rfl, ?_⟩
+  refine ⟨srLeakSt cfg.srSetsWriteLocking, ⟨2, srLeakRun cfg hm hf⟩, rfl, rfl, ?_⟩
   intro t ht
-  have h0 : EhOrphan srLeakSt := ⟨rfl, by decide, rfl, rfl, rfl, rfl, by decide, by decide⟩
+  have h0 : EhOrphan (srLeakSt cfg.srSetsWriteLocking) := ⟨rfl, rfl, rfl, rfl, rfl, rfl, rfl, rfl⟩
   obtain ⟨h1, h2, _, _, _, h6, h7, _⟩ := steps_inv_of_step EhOrphan (step_ehOrphan cfg) _ _ ht h0
   refine ⟨h1, h2, h6, ?_⟩
   intro i hi
@@ -394,10 +415,7 @@ machine as modelled; un-fixing any of them in the source breaks this `decide` -/
 theorem code_all_fixed : codeCfg = Cfg.repaired := by decide
 
 theorem code_covered_all (s : St) (hr : Reachable codeCfg s) : Covered codeCfg s :=
-  ⟨code_three_fixed, code_comperr_machine, Or.inl ⟨by decide, Or.inl hr⟩⟩
-
-theorem code_covered_nc (s : St) (hr : ReachableNC codeCfg s) : Covered codeCfg s :=
-  ⟨code_three_fixed, code_comperr_machine, Or.inl ⟨by decide, Or.inr hr⟩⟩
+  ⟨code_three_fixed, code_comperr_machine, Or.inl code_hands_over, Or.inl ⟨by decide, Or.inl hr⟩⟩
 
 /-- for EVERY reachable state of the code's configuration — `SetReadOnly` at any point (also while a
 compaction is in its transient-error retry loop, also concurrently with `Close`), storage failures and
@@ -410,13 +428,10 @@ theorem code_all_recovers_after_faults (s : St) (hr : Reachable codeCfg s) : Rec
   recovers_after_faults codeCfg s (code_covered_all s hr)
 theorem code_all_close_returns (s : St) (hr : Reachable codeCfg s) : CloseReturns codeCfg s :=
   close_returns codeCfg s (code_covered_all s hr)
-/-- the exact accounting: while the DB is open … -/
-theorem code_all_released_on_return_partial (s : St) (hr : Reachable codeCfg s) (ho : s.closed = false) :
-    ReleasedOnReturn s :=
-  released_on_return_partial codeCfg s (code_covered_all s hr) (Or.inl ho)
-/-- … and, `Close` included, in runs without corruption errors -/
-theorem code_nocorrupt_released_on_return (s : St) (hr : ReachableNC codeCfg s) : ReleasedOnReturn s :=
-  released_on_return_partial codeCfg s (code_covered_nc s hr) (Or.inr (Or.inl ⟨by decide, hr⟩))
+/-- **the exact accounting, full strength**: in every reachable state of the code's configuration the write-lock
+token, `compCommitLk` and `tr.lk` are held by exactly their owners, and a call that has returned owns nothing -/
+theorem code_all_released_on_return (s : St) (hr : Reachable codeCfg s) : ReleasedOnReturn s :=
+  released_on_return codeCfg s (code_covered_all s hr) code_hands_over (by decide)
 
 /-! ## `SetReadOnly` takes effect; the persistent-error state fails fast -/
 
@@ -454,7 +469,7 @@ theorem setReadOnly_takes_effect (s : St) (hr : Reachable codeCfg s) (hro : s.ro
     · exact he
     · have := g.1.1.a.2.2.2.1 he; rw [hcl] at this; cases this
     · have := g.1.1.a.2.2.1 he; rw [hcl] at this; cases this
-  have hk : s.ehTok = true := g.1.1.e.2.2 hro hcl
+  have hk : s.ehTok = true := (g.1.1.e.2.2 hro hcl).1
   have hE : tot tokW s.ws + b2n s.trOpen + b2n s.ehTok + b2n s.closeTok = b2n s.tok := g.2 hcl
   have c4 := b2n_le s.tok
   rw [hk] at hE; simp only [b2n_true] at hE
@@ -476,9 +491,10 @@ reachable state in which `compactionError` is in `hasperr` (it got a corruption 
   `compPerErrC` arm (the call returns the machine's error), while sending a compaction command or waiting for its
   ack the `compErrC` arm, in `SetReadOnly`'s second `select` the `compPerErrC` arm;
 * the state and its error last until `Close`;
-* once the machine has put its token into `writeLockC` (`ehTok`; it does so as soon as the lock is free), it
-  stays there until `Close`, and while the DB is open no thread gets the lock: a thread at a first `select`
-  moves only by returning the machine's error. -/
+* once `compWriteLocking` is set (the machine has taken `ErrReadOnly`, or it has put its own token into
+  `writeLockC` — it does so as soon as the lock is free), the token stays in `writeLockC` until `Close`, and while
+  the DB is open no thread gets the lock: a thread at a first `select` moves only by returning the machine's
+  error. -/
 theorem persistent_error_fails_fast (s : St) (hr : Reachable codeCfg s) (he : s.eh = .hasperr) :
     (∀ (i : Nat) (p : Pc), s.ws[i]? = some p →
       (∀ q, selNext p = some q → ∃ t, Step codeCfg false s t ∧ t.ws[i]? = some (.retE s.ehErr)) ∧
@@ -486,9 +502,9 @@ theorem persistent_error_fails_fast (s : St) (hr : Reachable codeCfg s) (he : s.
       (∀ b site lg, p = .cwAck b site lg → ∃ t, Step codeCfg false s t ∧ t.ws[i]? = some (onErr site lg)) ∧
       (p = .srSet → ∃ t, Step codeCfg false s t ∧ t.ws[i]? = some (.retE s.ehErr))) ∧
     (∀ f t, Step codeCfg f s t → (t.eh = .hasperr ∧ t.ehErr = s.ehErr) ∨ s.closed = true) ∧
-    (s.ehTok = true → s.closed = false →
+    (s.cwl = true → s.closed = false →
       s.tok = true ∧ tot tokW s.ws = 0 ∧
-      (∀ f t, Step codeCfg f s t → t.ehTok = true) ∧
+      (∀ f t, Step codeCfg f s t → t.ehTok = true ∧ t.cwl = true) ∧
       ∀ (i : Nat) (p : Pc), s.ws[i]? = some p → AtFirstSelect p →
         ∀ f t, Step codeCfg f s t → t.ws[i]? = some p ∨ t.ws[i]? = some (.retE s.ehErr)) := by
   have hc := code_covered_all s hr
@@ -501,7 +517,7 @@ theorem persistent_error_fails_fast (s : St) (hr : Reachable codeCfg s) (he : s.
       · exact h
       · rw [List.getElem?_eq_none h] at hi; cases hi
     simp [hlt]
-  refine ⟨fun i p hi => ⟨?_, ?_, ?_, ?_⟩, fun f t hst => step_hasperr codeCfg s t f hst he, fun hk hcl => ?_⟩
+  refine ⟨fun i p hi => ⟨?_, ?_, ?_, ?_⟩, fun f t hst => step_hasperr codeCfg s t f hst he, fun hcw hcl => ?_⟩
   · intro q hq
     exact ⟨_, Step.selPerErr s i p q hi hq (offPer_of hm he), hset i p _ hi⟩
   · rintro b site lg rfl
@@ -511,11 +527,16 @@ theorem persistent_error_fails_fast (s : St) (hr : Reachable codeCfg s) (he : s.
     cases b <;> simpa [St.setBg] using hset i _ _ hi
   · rintro rfl
     exact ⟨_, Step.srPerErr s i hi (offPer_of hm he), hset i _ _ hi⟩
-  · have hE : tot tokW s.ws + b2n s.trOpen + b2n s.ehTok + b2n s.closeTok = b2n s.tok := g.2 hcl
+  · have hH := (exact_handsOver codeCfg code_three_fixed hm code_hands_over (by decide) s (Or.inl hr)).2
+    obtain ⟨hk, hw⟩ := hH.1 hcw (by rw [he]; simp)
+    have hE : tot tokW s.ws + b2n s.trOpen + b2n s.ehTok + b2n s.closeTok = b2n s.tok := g.2 hcl
     have c4 := b2n_le s.tok
     rw [hk] at hE; simp only [b2n_true] at hE
     have htok : s.tok = true := by cases h : s.tok <;> simp_all
-    exact ⟨htok, by omega, fun f t hst => step_hasperr_locked codeCfg s t f hst he hk hcl,
+    exact ⟨htok, by omega,
+      fun f t hst => by
+        have := step_hasperr_locked codeCfg s t f hst he hk htok hw hcl
+        exact ⟨this.1, by rw [this.2]; exact hcw⟩,
       fun i p hi ⟨q, hq⟩ f t hst => sel_thread_step codeCfg s t f hst i p q hi hq htok hcl⟩
 
 /-! ### non-vacuity -/
@@ -527,12 +548,12 @@ example : Reachable Cfg.repaired stRetryRO ∧ stRetryRO.ws = [.ret false, .ret 
 /-- after `SetReadOnly` returned nil a `Put` is at its `select`: the state of `setReadOnly_takes_effect` -/
 example : Reachable Cfg.repaired (stRO .putSel) ∧ (stRO .putSel).ro = true ∧ (stRO .putSel).closed = false ∧
     AtFirstSelect .putSel :=
-  ⟨⟨2, (runRO Cfg.repaired rfl rfl).step (Step.startPut _ 1 rfl)⟩, rfl, rfl, ⟨_, rfl⟩⟩
+  ⟨⟨2, runRO.step (Step.startPut _ 1 rfl)⟩, rfl, rfl, ⟨_, rfl⟩⟩
 
 /-- a corruption puts the machine into `hasperr`; it then takes the write lock: the state of the last part of
 `persistent_error_fails_fast` -/
 example : Reachable Cfg.repaired (stCorrupt .idle true |> fun s => { s with ehTok := true, cwl := true }) :=
-  ⟨2, (runCorrupt Cfg.repaired rfl rfl rfl).step (Step.ehAcquire _ rfl rfl)⟩
+  ⟨2, runCorrupt.step (Step.ehAcquire _ rfl rfl)⟩
 
 /-! ## every `select` case of the machine that these theorems need: the run that hangs without it
 
@@ -590,7 +611,7 @@ theorem hang_without_hasperr_compErrC :
 `db.writeLockC <- struct{}{}`. -/
 theorem hang_without_hasperr_closeC :
     ∃ s, Reachable cfgNoHasperrClose s ∧ s.ws[1]? = some .clAcq ∧ Deadlock cfgNoHasperrClose s :=
-  ⟨_, ⟨2, runROClose cfgNoHasperrClose rfl rfl⟩, rfl, ⟨1, _, rfl, rfl⟩, stuck_of_canStep _ _ (by decide)⟩
+  ⟨_, ⟨2, runNoHasperrClose⟩, rfl, ⟨1, _, rfl, rfl⟩, stuck_of_canStep _ _ (by decide)⟩
 
 /-- **`hasperr` whose `closeC` case does not give the token back**: the same. -/
 theorem hang_without_hasperr_giveback :
@@ -603,22 +624,35 @@ after a corruption the machine is in `hasperr`, it has no step of its own left (
 theorem write_succeeds_without_hasperr_lock :
     ∃ s t, Reachable cfgNoLock s ∧ s.eh = .hasperr ∧ s.ehErr = .corrupt ∧ s.ws[1]? = some .idle ∧
       ehEn cfgNoLock s = false ∧ Steps cfgNoLock s t ∧ t.ws[1]? = some (.ret true) :=
-  ⟨_, _, ⟨2, runCorrupt cfgNoLock rfl rfl rfl⟩, rfl, rfl, rfl, by decide, runNoLock_put, rfl⟩
+  ⟨_, _, ⟨2, runCorruptNoLock⟩, rfl, rfl, rfl, by decide, runNoLock_put, rfl⟩
 
-/-! ## the write lock can be lost: the exact accounting fails after `Close` has begun -/
+/-! ## the defect repaired by 832d000: the write lock could be lost -/
 
-/-- **FINDING, current source**: a compaction reports a corruption while `SetReadOnly` is between its two
-`select`s, then `Close`: `compactionError` (in `hasperr`, reading the `compWriteLocking` that `SetReadOnly` set)
-takes `SetReadOnly`'s token out on `closeC`, `Close` acquires the lock, `SetReadOnly`'s `closeC` arm takes
-`Close`'s token out.  In the reachable state `s`, `Close` (thread 2) is in `db.closeW.Wait()` owning the lock
-(`closeTok`), and `writeLockC` is empty; a `Put` (thread 3) that had passed `db.ok()` before `Close` takes the
-`writeLockC` arm of its `select` and is inside `writeLocked` (state `t`) while `Close` goes on to close the journal. -/
+/-- **DEFECT (repaired by 832d000)**, on the configuration of the source before that commit: a compaction reports
+a corruption while `SetReadOnly` is between its two `select`s, then `Close`: `compactionError` (in `hasperr`,
+reading the `compWriteLocking` that `SetReadOnly` had set) takes `SetReadOnly`'s token out on `closeC`, `Close`
+acquires the lock, `SetReadOnly`'s `closeC` arm (`select { case <-db.writeLockC: default: }`) takes `Close`'s token
+out.  In the reachable state `s`, `Close` (thread 2) is in `db.closeW.Wait()` owning the lock (`closeTok`), and
+`writeLockC` is empty; a `Put` (thread 3) that had passed `db.ok()` before `Close` takes the `writeLockC` arm of
+its `select` and is inside `writeLocked` (state `t`) while `Close` goes on to close the journal.  (Reproduced on
+that source by `vh -prop C09`, signature `setReadOnly:corruption-then-close:write-lock-lost`.) -/
 theorem write_lock_lost :
-    ∃ s t, Reachable Cfg.repaired s ∧ s.ws[2]? = some .clWait ∧ s.closeTok = true ∧ s.tok = false ∧
-      ¬ ReleasedOnReturn s ∧ Step Cfg.repaired false s t ∧ t.ws[3]? = some .putFlush ∧ t.closeTok = true :=
+    ∃ s t, Reachable Cfg.before832 s ∧ s.ws[2]? = some .clWait ∧ s.closeTok = true ∧ s.tok = false ∧
+      ¬ ReleasedOnReturn s ∧ Step Cfg.before832 false s t ∧ t.ws[3]? = some .putFlush ∧ t.closeTok = true :=
   ⟨_, _, ⟨4, runLost⟩, rfl, rfl, rfl, fun h => by have := h.1; revert this; decide, stepLost, rfl, rfl⟩
 
-/-- **Finding (model level), current source**: giving the token back on `closeC` lets a writer through.
+/-- before 832d000 the exact accounting did not hold in every reachable state -/
+theorem released_on_return_fails_before_832d000 : ¬ ∀ s, Reachable Cfg.before832 s → ReleasedOnReturn s := by
+  intro h
+  obtain ⟨s, _, hr, _, _, _, hn, _⟩ := write_lock_lost
+  exact hn (h s hr)
+
+/-- the same schedule in the code's configuration: `Close` ends up owning the one token in `writeLockC` -/
+example : Reachable Cfg.repaired stKept ∧ stKept.closeTok = true ∧ stKept.tok = true ∧ stKept.ws[2]? = some .clWait :=
+  ⟨⟨4, runKept⟩, rfl, rfl, rfl⟩
+
+/-- **Finding (model level), current source, also after 832d000**: giving the token back on `closeC` lets a writer
+through.
 `SetReadOnly` returned nil; a `Put` called afterwards passed `db.ok()` and reached its `select`; `Close` closed
 `closeC`, `compactionError` took its token back and exited; before `Close` acquires the lock the `Put`'s `select`
 has two ready arms, `writeLockC` and `closeC`: it may take the lock, write to the journal and the memdb of a
@@ -627,32 +661,28 @@ theorem readonly_write_slips_through_on_close :
     ∃ s, Reachable Cfg.repaired s ∧ s.ro = true ∧ s.ws[0]? = some (.ret true) ∧ s.ws[1]? = some (.ret true) :=
   ⟨_, ⟨3, runROWrite⟩, rfl, rfl, rfl⟩
 
-/-- the full statement of `released_on_return` is false for the code's configuration -/
-theorem released_on_return_full_refuted : ¬ released_on_return_full := by
-  intro h
-  obtain ⟨s, _, hr, _, _, _, hn, _⟩ := write_lock_lost
-  exact hn (h Cfg.repaired s (repaired_covered s hr))
-
 def theorems : List String :=
-  ["GoLevel.C09.code_three_fixed", "GoLevel.C09.code_comperr_machine", "GoLevel.C09.code_all_fixed",
-   "GoLevel.C09.code_all_locks_have_owners", "GoLevel.C09.code_all_progress",
-   "GoLevel.C09.code_all_recovers_after_faults", "GoLevel.C09.code_all_close_returns",
-   "GoLevel.C09.code_all_released_on_return_partial", "GoLevel.C09.code_nocorrupt_released_on_return",
+  ["GoLevel.C09.code_three_fixed", "GoLevel.C09.code_comperr_machine", "GoLevel.C09.code_hands_over",
+   "GoLevel.C09.code_all_fixed",
+   "GoLevel.C09.code_all_released_on_return", "GoLevel.C09.code_all_locks_have_owners",
+   "GoLevel.C09.code_all_progress", "GoLevel.C09.code_all_recovers_after_faults",
+   "GoLevel.C09.code_all_close_returns",
    "GoLevel.C09.setReadOnly_takes_effect", "GoLevel.C09.persistent_error_fails_fast",
    "GoLevel.C09.hang_without_haserr_readonly_case", "GoLevel.C09.close_hangs_without_haserr_readonly_case",
    "GoLevel.C09.hang_without_noerr_readonly_case", "GoLevel.C09.hang_without_noerr_recv",
    "GoLevel.C09.hang_without_haserr_recv", "GoLevel.C09.hang_without_hasperr_compPerErrC",
    "GoLevel.C09.hang_without_hasperr_compErrC", "GoLevel.C09.hang_without_hasperr_closeC",
    "GoLevel.C09.hang_without_hasperr_giveback", "GoLevel.C09.write_succeeds_without_hasperr_lock",
-   "GoLevel.C09.write_lock_lost", "GoLevel.C09.released_on_return_full_refuted",
+   "GoLevel.C09.write_lock_lost", "GoLevel.C09.released_on_return_fails_before_832d000",
    "GoLevel.C09.readonly_write_slips_through_on_close",
-   "GoLevel.C09.released_on_return_partial", "GoLevel.C09.locks_have_owners",
+   "GoLevel.C09.released_on_return", "GoLevel.C09.released_on_return_partial", "GoLevel.C09.locks_have_owners",
    "GoLevel.C09.nothing_held_when_quiet", "GoLevel.C09.progress",
    "GoLevel.C09.recovers_after_faults", "GoLevel.C09.close_returns",
    "GoLevel.C09.code_released_on_return", "GoLevel.C09.code_progress",
    "GoLevel.C09.code_recovers_after_faults", "GoLevel.C09.code_close_returns",
-   "GoLevel.C09.repaired_released_on_return_partial", "GoLevel.C09.repaired_progress",
+   "GoLevel.C09.repaired_released_on_return", "GoLevel.C09.repaired_progress",
    "GoLevel.C09.repaired_recovers_after_faults", "GoLevel.C09.repaired_close_returns",
+   "GoLevel.C09.before832_covered",
    "GoLevel.C09.known_finding_setreadonly_close", "GoLevel.C09.leak_setreadonly_of",
    "GoLevel.C09.leak_opentx", "GoLevel.C09.leak_commit", "GoLevel.C09.leak_largebatch",
    "GoLevel.C09.leak_setreadonly", "GoLevel.C09.asIs_not_released"]
